@@ -7,6 +7,7 @@ import Fx.Xdr
 import Fx.Lemmas.Runtime
 import Fx.Props.C10
 import Fx.Lemmas.Selects
+import Fx.Lemmas.Sound
 namespace Fx.C06
 open Fx
 
@@ -79,5 +80,27 @@ theorem C06_undeclared_rejected (a : Ast) (m : Module) (hs : Supported a = true)
   simp only [hno] at hsel
   obtain ⟨l', e⟩ := hdisc fuel off s l
   exact ⟨l', by simp [evalImpl, hfi, e, hsel.1, hsel.2]⟩
+
+/-- **C06 (only declared discriminants are ever accepted).**  For every supported specification, every declared type and EVERY
+    byte string: an accepted input decodes to the documented value of a well-typed XDR value — every enum inside it holds a
+    declared member value, every union a discriminant that one of its arms declares (a label, or the default when there is
+    one) with the payload of exactly that arm, every optional field a marker 0 or 1, every boolean 0 or 1, every string
+    well-formed UTF-8.  Whatever is not of this form is answered `Err` (or not at all: `C04`). -/
+theorem C06_accepted_is_declared (a : Ast) (m : Module) (hs : Supported a = true) (hg : generateModule a = .ok m)
+    (n : String) (hn : declared a n = true) (fuel : Nat) (c : Cur) (v : Val) (c' : Cur)
+    (h : evalImpl a m.plans fuel n c = .ok v c') :
+    ∃ x, hasTypeNamed a n x = true ∧ v = reprNamed a n c.off x ∧ c'.off = c.off + x.enc.length :=
+  decode_sound hs hg n hn fuel c v c' h
+
+/-- in particular an accepted enum word is a declared value of that enum -/
+theorem C06_accepted_enum_is_member (a : Ast) (m : Module) (hs : Supported a = true) (hg : generateModule a = .ok m)
+    (n : String) (e : Enum) (hb : bget n a.types = some (.enum e)) (fuel : Nat) (c : Cur) (v : Val) (c' : Cur)
+    (h : evalImpl a m.plans fuel n c = .ok v c') :
+    ∃ w mem, enumHasValue a e w = true ∧ enumMemberName a e w = some mem ∧ v = .cenum n mem := by
+  cases fuel with
+  | zero => simp [evalImpl] at h
+  | succ k =>
+    obtain ⟨w, mem, h1, h2, h3, _⟩ := enum_sound (sd_of_supported hs hg).toRT n e hb k c v c' h
+    exact ⟨w, mem, h1, h2, h3⟩
 
 end Fx.C06
